@@ -134,16 +134,17 @@ def get_division_candidate(
 
     """
     # Look for exponent candidates among divisors
-    for idx2 in reversed(numpy.lexsort(x2.exponents.T)):
+    order = numpy.lexsort(x2.exponents.T)
+    for position in reversed(range(len(order))):
+        idx2 = order[position]
         exponent2 = x2.exponents[idx2]
 
-        # Include coefficients where idx2 is non-zero and any potential
-        # candidates that is a better fit has coefficient zero. Exponent needs
-        # to be the biggest one around.
-        include2 = numpy.ones(x2.shape, dtype=bool)
-        for idx, exponent in enumerate(x2.exponents):
-            if numpy.all(exponent2 <= exponent):
-                include2 &= (x2.coefficients[idx] == 0) ^ (idx == idx2)
+        # Include coefficients where idx2 is the leading term of the divisor:
+        # non-zero, while every term that sorts after it is zero. Using one
+        # fixed monomial order is what makes the reduction terminate.
+        include2 = numpy.asarray(x2.coefficients[idx2] != 0)
+        for idx in order[position + 1 :]:
+            include2 &= x2.coefficients[idx] == 0
         if not numpy.any(include2):
             continue
 
